@@ -217,4 +217,5 @@ class repeated_node_with_interleaving_comments_property(
         repeated = self._inner_field.__get__(instance)
         properties.replace_node(repeated, value.repeated)
         self._inner_field.__set__(instance, value.repeated)
+        properties.invalidate_cached_properties(instance)
         instance.__dict__[self._attr] = value
